@@ -19,7 +19,7 @@ from ..core import Violation
 from .peer import PeerSim
 
 BIG = 2**62
-SEND_TYPES = ["D", "8", "0", "A", "5", "1raw", "1", "2", "U7"]
+SEND_TYPES = ["D", "8", "0", "A", "5", "1raw", "1", "2", "U7", "D34"]
 STIM_KINDS = ["testreq", "app", "gap", "rr", "hb", "hb_wrong", "logout"]
 
 
@@ -64,6 +64,7 @@ class OutboundSim(PeerSim):
         self.peer.auto.update(logon=True, testreq=True, resend=True, logout=True)
         self.peer.next_out = cfg["eut_in"]
         self.eut.auto_logon = cfg["auto_logon"]
+        self.rng_aux = random.Random(cfg["seed"] ^ 0x34)
         self.busy = False
         self.n_sends = 0
         self.n_stim = 0
@@ -148,6 +149,15 @@ class OutboundSim(PeerSim):
         mark = f"S-{k}"
         if t in ("D", "8", "U7"):
             return FIXMessage(t, {11: mark, 55: "NQ", 54: "2", 38: k + 1, 44: "7.5"})
+        if t == "D34":
+            # a new message object that happens to carry a MsgSeqNum already (copied from a received or
+            # journaled message): it is still a new message and takes the next number
+            lv = self.live()
+            n = self.rng_aux.choice([1, 2, max(1, lv.next_num_out - 1), lv.next_num_out + 5])
+            m = FIXMessage("D", {11: mark, 55: "NQ", 54: "2", 38: k + 1, 44: "7.5", 34: n})
+            if self.rng_aux.random() < 0.5:
+                m[43] = "N"
+            return m
         if t == "0":
             return FIXMessage(FMsg.HEARTBEAT, {112: mark})
         if t == "A":
